@@ -295,7 +295,7 @@ def write_evidence(prop, tier, sd, sections, obligations, bounded, by_status, fa
             extra[sec.get("engine", "?")] = sec["extra"]
     samples = []
     for ob in obligations[:4] + obligations[len(obligations) // 2: len(obligations) // 2 + 3]:
-        samples.append({k: ob.get(k) for k in ("name", "status", "backend", "goal", "hyps", "detail") if ob.get(k) is not None})
+        samples.append({k: ob.get(k) for k in ("name", "status", "backend", "goal", "info", "hyps", "detail") if ob.get(k) is not None})
     bsum = []
     cases = distinct = 0
     for b in bounded:
